@@ -66,6 +66,20 @@ func checkLCS(p pair) *mc.Failure {
 		var got []int
 		if p.Eq == "mod" {
 			eq = func(x, y int) bool { return x%3 == y%3 }
+			// A comparison that panics part-way (the caller recovers) must
+			// leave nothing behind that the next, ordinary call could see.
+			for _, k := range []int{1, 2, len(a) + 1} {
+				calls := 0
+				func() {
+					defer func() { recover() }()
+					slice.LCSFunc(a, b, func(x, y int) bool {
+						if calls++; calls == k {
+							panic("comparison gave up")
+						}
+						return x%3 == y%3
+					})
+				}()
+			}
 			got = slice.LCSFunc(a, b, eq)
 		} else {
 			got = slice.LCS(a, b)
@@ -414,7 +428,7 @@ func main() {
 				r.Count("long_structured_pairs", nlong)
 				evals += nlong
 				r.AddEval(evals, evals, evals, rep)
-				r.Rule("LCS and LCSFunc (incl. a custom equality on the 4-letter alphabet) on every ordered pair; non-trivial = pairs of different lengths (argument swap path)")
+				r.Rule("LCS and LCSFunc (incl. a custom equality on the 4-letter alphabet; each such call preceded by three calls whose comparison panics at its 1st, 2nd and (len+1)th use and is recovered) on every ordered pair; non-trivial = pairs of different lengths (argument swap path)")
 				r.Sample(pair{[]int{0, 0}, []int{0}, "=="})
 			},
 			Replay: func(c mc.Case) *mc.Failure {
